@@ -1,6 +1,7 @@
 package arkx
 
 import (
+	"fmt"
 	"sort"
 	"strings"
 
@@ -20,7 +21,11 @@ func (x *Exec) Drive(nops int, note string) []GenOp {
 		maxEnt = 24
 	}
 	for i := 1; i <= nops; i++ {
-		op, ok := x.randomOp(maxEnt)
+		op, ok, broken := x.safeRandomOp(maxEnt)
+		if broken != "" {
+			x.emit(LogBroken{K: "broken", Where: "reading the world through the public API", Msg: broken})
+			return done
+		}
 		if !ok {
 			continue
 		}
@@ -31,25 +36,35 @@ func (x *Exec) Drive(nops int, note string) []GenOp {
 			// the monitor will flag it; stop this history
 			break
 		}
-		if x.Cfg.EveryOp || x.rng.Intn(8) == 0 {
-			x.battery()
+		if msg := x.guard(func() {
+			if x.Cfg.EveryOp || x.rng.Intn(8) == 0 {
+				x.battery()
+			}
+			if x.Cfg.Stats && x.rng.Intn(25) == 0 {
+				x.statsEvent()
+			}
+			if x.Cfg.Mem && x.rng.Intn(40) == 0 {
+				x.memEvent()
+			}
+		}); msg != "" {
+			x.emit(LogBroken{K: "broken", Where: "batteries", Msg: msg})
+			return done
 		}
-		if x.Cfg.Stats && x.rng.Intn(25) == 0 {
+	}
+	if msg := x.guard(func() {
+		x.battery()
+		if x.Cfg.Stats {
 			x.statsEvent()
 		}
-		if x.Cfg.Mem && x.rng.Intn(40) == 0 {
+		x.qmisBattery()
+		if x.Cfg.Mem {
 			x.memEvent()
 		}
+		x.misuseBattery(nops)
+	}); msg != "" {
+		x.emit(LogBroken{K: "broken", Where: "batteries after the history", Msg: msg})
+		return done
 	}
-	x.battery()
-	if x.Cfg.Stats {
-		x.statsEvent()
-	}
-	x.qmisBattery()
-	if x.Cfg.Mem {
-		x.memEvent()
-	}
-	x.misuseBattery(nops)
 	// close what is still open; the world must be unlocked afterwards (checked by the monitor)
 	qids := []int{}
 	for id := range x.queries {
@@ -63,6 +78,22 @@ func (x *Exec) Drive(nops int, note string) []GenOp {
 		x.emit(x.run(o, nops+100+k))
 	}
 	return done
+}
+
+func (x *Exec) safeRandomOp(maxEnt int) (op GenOp, ok bool, broken string) {
+	defer func() {
+		if r := recover(); r != nil {
+			if hb, isHB := r.(harnessBug); isHB {
+				panic(hb.msg)
+			}
+			broken = fmt.Sprint(r)
+			if len(broken) > 160 {
+				broken = broken[:160]
+			}
+		}
+	}()
+	op, ok = x.randomOp(maxEnt)
+	return
 }
 
 type entView struct {
@@ -740,4 +771,21 @@ func (x *Exec) remember(f GenFlt) {
 	if len(x.recent) > 6 {
 		x.recent = x.recent[1:]
 	}
+}
+
+// guard runs harness code that calls into the library outside of an operation; a panic is reported as text.
+func (x *Exec) guard(f func()) (msg string) {
+	defer func() {
+		if r := recover(); r != nil {
+			if hb, isHB := r.(harnessBug); isHB {
+				panic(hb.msg)
+			}
+			msg = fmt.Sprint(r)
+			if len(msg) > 160 {
+				msg = msg[:160]
+			}
+		}
+	}()
+	f()
+	return ""
 }
